@@ -8,14 +8,8 @@ theorem copyLoop_fuel (off : Nat) (h1 : 1 ≤ off) : ∀ (fuel len : Nat) (out :
   | fuel + 1, len, out, olen, h => by
     simp only [copyLoop]
     split
-    · split
-      · simp
-      · split
-        · simp
-        · exact copyLoop_fuel off h1 fuel (len - off) _ _ (by omega)
-    · split
-      · simp
-      · split <;> simp
+    · exact copyLoop_fuel off h1 fuel (len - off) _ _ (by omega)
+    · simp
 
 theorem tokenLoop_fuel (size start : Nat) : ∀ (n flags : Nat) (st : St),
     tokenLoop size start n flags st ≠ .outOfFuel ∧
@@ -55,6 +49,8 @@ theorem tokenLoop_fuel (size start : Nat) : ∀ (n flags : Nat) (st : St),
             | none => simp
             | some bc =>
               simp only
+              split
+              · exact ⟨by simp, by intro _ _ h; simp at h⟩
               cases hc : copyLoop (((u16le lo hi &&& (0xFFFF ^^^ 0xFFFF >>> bc)) >>> (16 - bc)) + 1)
                   ((u16le lo hi &&& 0xFFFF >>> bc) + 3 + 1) ((u16le lo hi &&& 0xFFFF >>> bc) + 3) st.out st.olen with
               | ok p =>
